@@ -80,6 +80,7 @@ def units(tier):
 def meta(tier):
     q = tier == "quick"
     return dict(bounds=dict(history_len=2 if q else 3, alphabet=OPS, valid_programs=len(VALID), invalid_programs=len(INVALID),
+                            invalid_generated="7 unit wrappers (program, subroutine, function, main program without PROGRAM, internal subprogram, module function, internal subprogram of an unnamed main program) x 4 failure modes (intrinsic argument count, DO name mismatch, soft no-match, IF name mismatch)",
                             symbolic="unit name of the history programs and unit name of the final program (1 character each: equal or different)",
                             memo_line_len=2 if q else 3),
                 assumptions=["the hard-reset reference = memo cleared, SYMBOL_TABLES.clear(), BLOCK counter 0, then the real ParserFactory.create(std) (validated against a fresh native process by witness replay)",
